@@ -10,6 +10,9 @@ def run(tier):
     ext = tlc.run("Extent.tla", "Extent_world_quick.cfg" if quick else "Extent_world_thorough.cfg", workers=12, timeout=3000, heap="16g")
     c.add_tlc(ext, "simple polygons on the lattice; Mech (winding-number code) = Prop for every probe")
     beh = list(ext.behaviours)
+    sph = tlc.run("Extent.tla", "Extent_sph_quick.cfg" if quick else "Extent_sph_thorough.cfg", workers=12, timeout=3000, heap="16g")
+    c.add_tlc(sph, "the same polygons as spherical footprints at three longitudes (ordinary, straddling +-180, beyond -180)")
+    beh += sph.behaviours
     for cfg, nm in (("Plume_cart_quick.cfg", "plume tables, Cartesian"), ("Plume_sph_quick.cfg", "plume tables, spherical")):
         r = tlc.run("Plume.tla", cfg, workers=12, timeout=1800, heap="12g")
         c.add_tlc(r, nm)
@@ -33,5 +36,5 @@ def run(tier):
                           "64 surface points x cap / section / between-section (fractions 1/4, 1/3, 1/2, 0.925) / below-last / out-of-range depths. "
                           "non-trivial: every polygon and table (each has interior and exterior probes)")
     c.assumptions += ["plume membership asserted only where |F-1| > 1e-6 (F evaluated by the harness from the specification's term)",
-                      "spherical polygons are covered by C08 (longitude shifts) and C13; here polygons are Cartesian integer metres"]
+                      "spherical polygons (3x3 lattice quick, 4x4 thorough; unit 5 degrees) are asserted at interior / exterior lattice points only; boundary points are exact only in Cartesian integer metres"]
     return c.finish()
